@@ -82,6 +82,10 @@ pub struct Case {
 	pub drop_handle_at: Option<usize>,
 	/// Some(p): the main phase runs under seeded random schedules instead of directed stepping
 	pub sched: Option<f64>,
+	/// scheduled cases: extra yield points per decode call (a decoder that is slow compared with
+	/// the audio task, so that data arrives while a chunk is being rendered)
+	#[serde(default)]
+	pub slow: u32,
 }
 
 const ENDINGS: usize = 5;
@@ -151,7 +155,7 @@ fn gen_case(seed: u64, index: u64, tier: Tier) -> Case {
 		3 => Hold::StartOnStoppedClock,
 		_ => Hold::None,
 	};
-	let sched = if !systematic && rng.chance(0.35) { Some(*rng.pick(&[0.1, 0.3, 0.7])) } else { None };
+	let sched = if !systematic && rng.chance(0.35) { Some(*rng.pick(&[0.03, 0.1, 0.3, 0.7])) } else { None };
 	// known finding (open): pause() and stop() travel in separate mailboxes that the audio thread
 	// reads one after the other; written while it is between the two reads, the earlier pause is
 	// applied one callback after the later stop and cancels it - the sound never stops. While it
@@ -179,6 +183,7 @@ fn gen_case(seed: u64, index: u64, tier: Tier) -> Case {
 		hold,
 		drop_handle_at: None,
 		sched,
+		slow: *rng.pick(&[0u32, 0, 8, 30, 100]),
 	};
 	// a fifth of the directed fault cases are fire-and-forget: the handle is dropped early, the error
 	// still has to stop and unload the sound
@@ -198,6 +203,28 @@ fn gen_case(seed: u64, index: u64, tier: Tier) -> Case {
 		case.hold = Hold::None;
 		case.track_paused = false;
 		case.seek = None;
+	}
+	// a sixteenth of all cases race the END of a short stream: a decoder that is slow compared
+	// with the audio task delivers its last frames (and raises "reached the end") while a chunk
+	// is being rendered; the stream is still heard to its last frame
+	if index % 16 == 9 {
+		// (low switch probabilities give the decoder long bursts: several frames and the end flag
+		// between two steps of the audio task)
+		case.sched = Some(*rng.pick(&[0.03, 0.1, 0.3, 0.6]));
+		case.slow = *rng.pick(&[1u32, 2, 4, 8, 16]);
+		case.len = rng.urange(8, 120);
+		case.packets = vec![*rng.pick(&[1usize, 2, 3, 5, 8])];
+		case.chunk = *rng.pick(&[4usize, 16, 64]);
+		// enough callbacks for the slow decoder to get to the end while the race is on
+		case.callbacks = (case.len / case.chunk + 2) * (3 + case.slow as usize);
+		case.ending = Ending::Natural;
+		case.looped = false;
+		case.fail_decode = None;
+		case.fail_seek = None;
+		case.hold = Hold::None;
+		case.track_paused = false;
+		case.seek = None;
+		case.drop_handle_at = None;
 	}
 	case
 }
@@ -263,6 +290,7 @@ pub fn run_case(case: &Case) -> CaseResult {
 		fail_decode: case.fail_decode.into_iter().collect(),
 		fail_seek: case.fail_seek.into_iter().collect(),
 		fail_sticky: case.sticky,
+		slow: if case.sched.is_some() { case.slow } else { 0 },
 	};
 	if case.hold == Hold::StartOnStoppedClock {
 		world.exec(&Op::AddClock { speed: Val::Fixed(Speed::TicksPerSecond(10.0)) });
@@ -746,6 +774,35 @@ pub fn run_case(case: &Case) -> CaseResult {
 			}
 			last = Some(*h);
 			gap = false;
+		}
+		// a stream that was simply played to its end is heard to its end: the last source frame
+		// is not lost, however late the decoder delivered it
+		let final_state = world_opt.as_ref().and_then(|w| w.sounds.get(sound_idx)).and_then(|s| s.handle.as_ref()).map(|h| h.state());
+		if res.violation.is_none()
+			&& !case.looped && !stop_issued(case) && !rejected && !manager_dropped && !track_dropped && !case.track_paused
+			&& matches!(case.hold, Hold::None)
+			&& case.drop_handle_at.is_none()
+			&& final_state == Some(PlaybackState::Stopped)
+		{
+			let last_heard = heard.iter().rev().find(|h| **h >= 0).copied();
+			if last_heard != Some(case.len as i64 - 1) {
+				res.fail(Violation::new(
+					"frame-order",
+					"stream-ended-before-its-last-frame",
+					format!(
+						"a {}-frame stream that nobody stopped reports Stopped, but the last source frame heard is {last_heard:?}, not {} (pace {:?}, packets {:?})",
+						case.len,
+						case.len - 1,
+						case.pace,
+						case.packets
+					),
+				));
+			} else {
+				res.hit("streams_heard_to_their_last_frame");
+				if case.sched.is_some() {
+					res.hit("streams_heard_to_their_last_frame_under_random_schedules");
+				}
+			}
 		}
 		if heard.iter().any(|h| *h < -1 || *h >= case.len as i64) {
 			res.fail(Violation::new("frame-order", "foreign-frame", "the output contains a value that is not a source frame".to_string()));
